@@ -56,3 +56,12 @@ template class FEAT::Geometry::FacetFlipper<Shape::Hypercube<2>>;
 template class FEAT::Geometry::FacetFlipper<Shape::Hypercube<3>>;
 template class FEAT::Geometry::FacetFlipper<Shape::Simplex<2>>;
 template class FEAT::Geometry::FacetFlipper<Shape::Simplex<3>>;
+
+// dual adaption of refined meshes (RootMeshNode::refine_unique with AdaptMode::dual)
+#include <kernel/geometry/intern/dual_adaptor.hpp>
+template struct FEAT::Geometry::Intern::DualAdaptor<ConformalMesh<Shape::Hypercube<1>, 1, double>>;
+template struct FEAT::Geometry::Intern::DualAdaptor<ConformalMesh<Shape::Hypercube<2>, 2, double>>;
+template struct FEAT::Geometry::Intern::DualAdaptor<ConformalMesh<Shape::Hypercube<3>, 3, double>>;
+template struct FEAT::Geometry::Intern::DualAdaptor<ConformalMesh<Shape::Simplex<1>, 1, double>>;
+template struct FEAT::Geometry::Intern::DualAdaptor<ConformalMesh<Shape::Simplex<2>, 2, double>>;
+template struct FEAT::Geometry::Intern::DualAdaptor<ConformalMesh<Shape::Simplex<3>, 3, double>>;
